@@ -83,6 +83,15 @@ fn main() {
                         model.push_back(b);
                     }
                 }
+                b'b' => {
+                    r.reserve(f[1]);
+                    // SAFETY: same contract as extend_from_within_unchecked
+                    unsafe { r.extend_from_within_unchecked_branchless(f[0], f[1]) };
+                    for k in 0..f[1] {
+                        let b = model[f[0] + k];
+                        model.push_back(b);
+                    }
+                }
                 b'd' => {
                     r.drop_first_n(f[0]);
                     model.drain(..f[0]);
